@@ -108,7 +108,7 @@ var Glue = syms("", " ", "\n")
 var (
 	LitPrefixes = syms("", "r", "b", "rb", "R", "B", "bR", "Rb", "BR", "br")
 	LitQuotes   = syms("'", "\"", "'''", "\"\"\"")
-	LitBodies   = syms("", "a", "\\n", "\\a\\b\\f\\r\\t\\v", "\\\\", "\\?", "\\\"", "\\'", "\\`", "\\101", "\\400", "\\18", "\\x41", "\\X4a", "\\x4", "\\xg1",
+	LitBodies   = syms("", "a", "\\n", "\\a\\b\\f\\r\\t\\v", "\\\\", "\\?", "\\\"", "\\'", "\\`", "\\101", "\\400", "\\18", "\\089", "\\378", "\\777", "\\1", "\\12a", "\\x41", "\\X4a", "\\x4", "\\xg1",
 		"\\u0041", "\\u00e9", "\\ud800", "\\udfff", "\\ue000", "\\u004", "\\U00000041", "\\U0010FFFF", "\\U00110000", "\\U0001F600", "\\c", "\\", "\n", "a\nb", "'", "\"", "''", "\"\"", "\\\n", "\xff", "\u00e9")
 	LitSuffixes = syms("", " a", "a", ";")
 )
